@@ -11,8 +11,54 @@ use crate::util::*;
 use proptest::prelude::*;
 use serde_json::json;
 
+/// the degenerate zero-length run: one list per event function, all empty, shapes still matching
+fn check_zero_length(c: &Case) -> Outcome {
+    let sp = &c.span;
+    let prob = Prob::new(&c.prob, sp.x0, sp.x0 + 1.0);
+    let n = prob.n;
+    let name = c.method.name();
+    // the recipes cannot be resolved against a grid: use them as they are, around x0
+    let evs: Vec<EvSpec> = c
+        .recipes
+        .iter()
+        .enumerate()
+        .map(|(k, r)| {
+            let g = match &r.kind {
+                EvKind::Affine(a) => {
+                    let mut a = a.clone();
+                    a.resize(n, 0.5);
+                    Ev::Affine { a, bt: 0.0, c: 0.25 * k as f64 }
+                }
+                EvKind::Bilinear(i, j) => Ev::Bilinear { i: *i % n, j: *j % n, c: 0.1 },
+                _ => Ev::Time { c: sp.x0 + k as f64 - 1.0 },
+            };
+            EvSpec { g, dir: r.dir, terminal: r.terminal }
+        })
+        .collect();
+    let mut instr = Instr::new(&prob, &evs);
+    instr.use_jac = c.analytic_jac;
+    let mut o = opts(c, n, true, None);
+    o.first_step = None;
+    let sol = match solve(&instr, sp.x0, sp.x0, &prob.y0(), &o) {
+        RunResult::Ok(s) => s,
+        other => return Outcome::viol(format!("{}: zero-length run with {} event functions gives {}", name, evs.len(), other.describe())),
+    };
+    if sol.t_events.len() != evs.len() || sol.y_events.len() != evs.len() {
+        return Outcome::viol(format!("{}: zero-length run, {} states, {} event functions: t_events/y_events have {}/{} entries", name, n, evs.len(), sol.t_events.len(), sol.y_events.len()));
+    }
+    for k in 0..evs.len() {
+        if sol.t_events[k].len() != sol.y_events[k].len() || !sol.t_events[k].is_empty() {
+            return Outcome::viol(format!("{}: zero-length run: function {} has {} event times and {} event states", name, k, sol.t_events[k].len(), sol.y_events[k].len()));
+        }
+    }
+    Outcome::pass(format!("{}:zero-length", name), evs.len() != n, json!({"events": 0, "n_event_functions": evs.len(), "n_states": n}))
+}
+
 pub fn check(c: &Case) -> Outcome {
     let sp = &c.span;
+    if sp.x0 == sp.xend {
+        return check_zero_length(c);
+    }
     let d = sp.dir();
     let prob = Prob::new(&c.prob, sp.x0, sp.xend);
     let n = prob.n;
@@ -134,7 +180,15 @@ pub fn check(c: &Case) -> Outcome {
 }
 
 pub fn strategy() -> BoxedStrategy<Case> {
-    crate::props::c09::strategy()
+    // one case in forty is the zero-length run (x0 == xend) with the same event functions
+    (crate::props::c09::strategy(), 0u8..40)
+        .prop_map(|(mut c, z)| {
+            if z == 0 {
+                c.span.xend = c.span.x0;
+            }
+            c
+        })
+        .boxed()
 }
 
 pub fn run(ctx: &Ctx, known: &[Known]) -> Report {
